@@ -97,7 +97,7 @@ Usable(t, b) == b # MyBid \/ Made(t)
 \* finalizeCommit re-validates and panics.  Noted in DESIGN.md as a deviation, not claimed as a finding.
 FaultGuard(t, type, r, b, who) ==
   LET vs == IF type = PrecommitT THEN PC(t.s, r) ELSE PV(t.s, r)
-  IN ~(b \in InvalidBids /\ Two3(VFor(vs, b) + SumP({i \in who : vs[i] = NoB})))
+  IN ~(b \in InvalidBids /\ Two3(t.s.h, VFor(t.s.h, vs, b) + SumP(t.s.h, {i \in who : vs[i] = NoB})))
 
 \* a bundle: the votes of ALL other validators for (type, r, b), delivered one after the other
 RECURSIVE Bundle(_, _, _, _, _)
